@@ -2,20 +2,18 @@
    Both back-end models run the same history; a Fault of one side is printed and that side is
    dead for the rest of the case ("FAULT-P"/"FAULT-E" lines).  The epoll choice is "the first
    min(n,cap) ready entries"; for a truncated poll the checker compares sets (see lib/props/C09.py).
-   LOOP = one iteration of EventLoop::loop() (extracted loop_iter) with the scripted callbacks (ON);
-   the epoll dispatch order is the kernel's: it is taken from the implementation's line
-   (order=c1,c2,.. appended by the checker), validated to be a min(n,cap)-part of the model's ready
-   set and turned into the [choice] argument (trace validation). *)
+   LOOP = one iteration of EventLoop::loop() (extracted loop_iter_full: poll, dispatch of the snapshot
+   with the scripted callbacks, doPendingFunctors with the functors the callbacks queued); the epoll
+   dispatch order is the kernel's: it is taken from the implementation's line (order=c1,c2,.. appended
+   by the checker), validated to be a min(n,cap)-part of the model's ready set and turned into the
+   [choice] argument (trace validation).  Tie state is per side (a callback may construct a fresh,
+   untied Channel object on one side only). *)
 let maxch = 400 and maxfd = 400
 let soi = string_of_int
 let sz z = string_of_z z
 let sn x = soi (int_of_n x)
 let cat = String.concat ","
 let range n = List.init n (fun i -> i)
-let crc_of_string (s:string) : string =
-  let c = ref 0xffffffff in
-  String.iter (fun ch -> c := crc_tab.((!c lxor (Char.code ch)) land 255) lxor (!c lsr 8)) s;
-  Printf.sprintf "%08x" (!c lxor 0xffffffff)
 let idx_string (objs : nat -> chan option) (hi:int) : string =
   cat (List.filter_map (fun c -> match objs (nat_of_int c) with
     | Some ch -> Some (soi c ^ ":" ^ sz ch.index ^ "/" ^ sn ch.events) | None -> None) (range hi))
@@ -32,6 +30,10 @@ let state_string (e: ep option) (p: pp option) (hic:int) (hif:int) : string =
     "P{idx=" ^ idx_string p.p_objs hic ^ " map=" ^ map_string p.p_map hif ^ " pfds=" ^
     cat (List.map (fun q -> sz q.p_fd ^ ":" ^ sn q.p_ev) p.p_pfds) ^ "}" in
   es ^ " " ^ ps
+let alive_count (e: ep option) (p: pp option) (hic:int) : int =
+  List.length (List.filter (fun c ->
+    (match e with Some st -> st.e_objs (nat_of_int c) <> None | None -> false) ||
+    (match p with Some st -> st.p_objs (nat_of_int c) <> None | None -> false)) (range hic))
 let cbname = function CbClose -> "close" | CbError -> "error" | CbRead -> "read" | CbWrite -> "write"
 let act_string (a : (nat * n) list) : string =
   let l = List.sort compare (List.map (fun (c, r) -> (int_of_nat c, int_of_n r)) a) in
@@ -48,6 +50,14 @@ let log_string (l : (nat * cb) list) : string =
   cat (List.map (fun (c, k) -> soi (int_of_nat c) ^ ":" ^ cbname k) l)
 let cb_of_name = function "read" -> CbRead | "write" -> CbWrite | "close" -> CbClose | _ -> CbError
 let uop_of_name = function "ER" -> UEnableR | "DR" -> UDisableR | "EW" -> UEnableW | "DW" -> UDisableW | _ -> UDisableAll
+let op_of (name : string) (c : int) (arg : int) : op option =
+  let c' = nat_of_int c in
+  match name with
+  | "NEW" -> Some (New (c', nat_of_int arg))
+  | "DEL" -> Some (Del c')
+  | "RM" -> Some (Remove c')
+  | "ER" | "DR" | "EW" | "DW" | "DA" -> Some (Upd (uop_of_name name, c'))
+  | _ -> None
 (* indices that make [pick] return the entries of [full] in the given channel order *)
 let choice_of_order (order : int list) (full : (nat * n) list) : nat list option =
   let rec go order l = match order with
@@ -60,14 +70,37 @@ let choice_of_order (order : int list) (full : (nat * n) list) : nat list option
          let l' = List.filteri (fun j _ -> j <> i) l in
          (match go t l' with None -> None | Some rest -> Some (nat_of_int i :: rest))) in
   go order full
+type script = { s_c : int; s_kind : cb; s_queued : bool; s_op : op }
 let () =
   let e = ref (Some ep_init) and p = ref (Some pp_init) in
-  let alive = ref 0 and hic = ref 0 and hif = ref 0 in
-  let tied = Array.make maxch false and owner = Array.make maxch false in
-  let scripts : (int * cb * op) list ref = ref [] in
-  let runs (c : nat) : bool = let i = int_of_nat c in if i < maxch then handle_runs tied.(i) owner.(i) else true in
+  let hic = ref 0 and hif = ref 0 in
+  (* tie state per side: index 0 = epoll side, 1 = poll side *)
+  let tied = [| Array.make maxch false; Array.make maxch false |]
+  and owner = [| Array.make maxch false; Array.make maxch false |] in
+  let scripts : script list ref = ref [] in
+  let runs side (c : nat) : bool =
+    let i = int_of_nat c in if i < maxch then handle_runs tied.(side).(i) owner.(side).(i) else true in
   let handler (c : nat) (k : cb) : op list =
-    List.filter_map (fun (c', k', o) -> if c' = int_of_nat c && k' = k then Some o else None) !scripts in
+    List.filter_map (fun s -> if s.s_c = int_of_nat c && s.s_kind = k && not s.s_queued then Some s.s_op else None) !scripts in
+  let hq (c : nat) (k : cb) : nat list =
+    List.concat (List.mapi (fun i s -> if s.s_c = int_of_nat c && s.s_kind = k && s.s_queued then [nat_of_int i] else []) !scripts) in
+  let fb (i : nat) : op list * nat list =
+    (match List.nth_opt !scripts (int_of_nat i) with Some s -> ([s.s_op], []) | None -> ([], [])) in
+  (* a fresh Channel object is untied: after every step, forget the tie of every id that is not alive on that side *)
+  let sync_ties () =
+    for c = 0 to !hic - 1 do
+      (match !e with Some st -> if st.e_objs (nat_of_int c) = None then (tied.(0).(c) <- false; owner.(0).(c) <- false) | None -> ());
+      (match !p with Some st -> if st.p_objs (nat_of_int c) = None then (tied.(1).(c) <- false; owner.(1).(c) <- false) | None -> ())
+    done in
+  (* a NEW executed inside a batch (its callback / functor ran and the iteration succeeded) made a fresh, untied object *)
+  let untie_created side (log : (nat * cb) list) (ran : nat list) =
+    let created = List.concat (List.map (fun (c, k) -> handler c k) log) @ List.concat (List.map (fun i -> fst (fb i)) ran) in
+    List.iter (fun o -> match o with
+      | New (c, _) -> let ci = int_of_nat c in if ci < maxch then (tied.(side).(ci) <- false; owner.(side).(ci) <- false)
+      | _ -> ()) created in
+  let note_op (o : op) = (match o with
+    | New (c, f) -> hic := max !hic (int_of_nat c + 1); hif := max !hif (int_of_nat f + 1)
+    | _ -> ()) in
   let loopcase = ref false in
   let bad = ref false in
   (try while true do
@@ -75,12 +108,13 @@ let () =
     match split_ws line with
     | [] -> ()
     | "case" :: id :: rest ->
-        e := Some ep_init; p := Some pp_init; alive := 0; hic := 0; hif := 0; bad := false;
-        Array.fill tied 0 maxch false; Array.fill owner 0 maxch false; scripts := [];
+        e := Some ep_init; p := Some pp_init; hic := 0; hif := 0; bad := false;
+        Array.iter (fun a -> Array.fill a 0 maxch false) tied; Array.iter (fun a -> Array.fill a 0 maxch false) owner;
+        scripts := [];
         Printf.printf "case %s abi=1,2,4,8,16,32,8192 epoll_eq_poll=1\n" id;
         (match rest with
          | ["loop"; b] -> loopcase := true;
-             Printf.printf "loop backend=%s poller=%s idle1=blocked wake=ok idle2=blocked task=ok idle3=blocked timer=ok idle4=blocked\n"
+             Printf.printf "loop backend=%s poller=%s idle1=blocked wake=ok idle2=blocked task=ok idle3=blocked nested=ok idle3b=blocked timer=ok idle4=blocked\n"
                b (if b = "poll" then "PollPoller" else "EPollPoller")
          | _ -> loopcase := false);
         flush stdout
@@ -90,15 +124,27 @@ let () =
     | ("open" | "wr" | "drain" | "hc" | "pc" | "fill" | "unfill" | "close") :: _ -> print_string "env\n"; flush stdout
     | ["INJ"; cs; bits] ->
         let ci = int_of_string cs in
-        let ks = if ci >= 0 && ci < maxch then handle_event tied.(ci) owner.(ci) (n_of_int (int_of_string bits))
+        let ks = if ci >= 0 && ci < maxch then handle_event tied.(0).(ci) owner.(0).(ci) (n_of_int (int_of_string bits))
                  else dispatch (n_of_int (int_of_string bits)) in
         Printf.printf "inj cb=%s\n" (cat (List.map (fun k -> cs ^ ":" ^ cbname k) ks)); flush stdout
-    | ["TIE"; cs] -> let ci = int_of_string cs in tied.(ci) <- true; owner.(ci) <- true; print_string "tie\n"; flush stdout
-    | ["DROP"; cs] -> let ci = int_of_string cs in owner.(ci) <- false; print_string "drop\n"; flush stdout
-    | ["ON"; cs; kind; opn; c2s] ->
-        let c2 = nat_of_int (int_of_string c2s) in
-        let o = if opn = "RM" then Remove c2 else Upd (uop_of_name opn, c2) in
-        scripts := !scripts @ [(int_of_string cs, cb_of_name kind, o)]; print_string "on\n"; flush stdout
+    | ["TIE"; cs] ->
+        let ci = int_of_string cs in
+        (match !e with Some st when st.e_objs (nat_of_int ci) <> None -> tied.(0).(ci) <- true; owner.(0).(ci) <- true | _ -> ());
+        (match !p with Some st when st.p_objs (nat_of_int ci) <> None -> tied.(1).(ci) <- true; owner.(1).(ci) <- true | _ -> ());
+        print_string "tie\n"; flush stdout
+    | ["DROP"; cs] -> let ci = int_of_string cs in owner.(0).(ci) <- false; owner.(1).(ci) <- false; print_string "drop\n"; flush stdout
+    | "ON" :: cs :: kind :: rest ->
+        let queued, rest = (match rest with "Q" :: r -> true, r | r -> false, r) in
+        (match rest with
+         | opn :: c2s :: more ->
+           let arg = (match more with a :: _ -> int_of_string a | [] -> 0) in
+           (match op_of opn (int_of_string c2s) arg with
+            | Some o -> note_op o;
+                scripts := !scripts @ [{ s_c = int_of_string cs; s_kind = cb_of_name kind; s_queued = queued; s_op = o }];
+                print_string "on\n"
+            | None -> print_string "invalid ON\n"; bad := true)
+         | _ -> print_string "invalid ON\n"; bad := true);
+        flush stdout
     | ["OFF"] -> scripts := []; print_string "off\n"; flush stdout
     | "LOOP" :: ws ->
         let order = List.fold_left (fun acc w ->
@@ -110,6 +156,7 @@ let () =
         let rd = parse_ready ws in
         let ready (f:nat) : n = (match List.assoc_opt (int_of_nat f) rd with Some b -> n_of_int b | None -> N0) in
         let env = cat (List.map (fun (k,b) -> soi k ^ ":" ^ soi b) (List.sort compare (List.filter (fun (_,b) -> b <> 0) rd))) in
+        let fn_string l = cat (List.map (fun i -> soi (int_of_nat i)) l) in
         let es = (match !e with None -> "E dead" | Some st ->
           let full = ep_full st ready in
           let n = min (List.length full) (int_of_nat st.e_cap) in
@@ -119,9 +166,10 @@ let () =
           (match choice with
            | None -> "E order-not-a-part-of-the-ready-set full=[" ^ act_string full ^ "]"
            | Some ch ->
-             (match ep_loop_iter handler runs st ready ch with
-              | Ok ((st', act), log) -> e := Some st';
-                  Printf.sprintf "E ok n=%d cap=%d [%s] cb=%s" (List.length act) (int_of_nat st'.e_cap) (act_string_ordered act) (log_string log)
+             (match ep_loop_iter_full handler hq fb (runs 0) st ready ch [] with
+              | Ok ((((st', act), log), ran), _) -> e := Some st'; untie_created 0 log ran;
+                  Printf.sprintf "E ok n=%d cap=%d [%s] cb=%s fn=%s" (List.length act) (int_of_nat st'.e_cap)
+                    (act_string_ordered act) (log_string log) (fn_string ran)
               | Rejected ->
                   (* the batch hit a violated precondition: show what was polled, the side is dead *)
                   let s = (match ep_step_current st (Poll (ready, ch)) with
@@ -130,17 +178,18 @@ let () =
                   e := None; s
               | Fault -> e := None; "E FAULT"))) in
         let ps = (match !p with None -> "P dead" | Some st ->
-          (match pp_loop_iter_current handler runs st ready [] with
-           | Ok ((st', act), log) -> p := Some st';
-               Printf.sprintf "P ok n=%d [%s] cb=%s" (List.length act) (act_string_ordered act) (log_string log)
+          (match pp_loop_iter_full_current handler hq fb (runs 1) st ready [] [] with
+           | Ok ((((st', act), log), ran), _) -> p := Some st'; untie_created 1 log ran;
+               Printf.sprintf "P ok n=%d [%s] cb=%s fn=%s" (List.length act) (act_string_ordered act) (log_string log) (fn_string ran)
            | Rejected ->
                let s = (match pp_step_current st (Poll (ready, [])) with
                  | Ok (_, act) -> Printf.sprintf "P rejected n=%d [%s]" (List.length act) (act_string_ordered act)
                  | _ -> "P rejected") in
                p := None; s
            | Fault -> p := None; "P FAULT")) in
+        sync_ties ();
         Printf.printf "loop env=%s %s | %s || %s\n" env es ps
-          (if !alive > 16 then "big" else state_string !e !p !hic !hif);
+          (if alive_count !e !p !hic > 16 then "big" else state_string !e !p !hic !hif);
         if !e = None && !p = None then bad := true;
         flush stdout
     | "POLL" :: ws ->
@@ -151,41 +200,23 @@ let () =
           let full = ep_full st ready in
           (match ep_step_current st (Poll (ready, [])) with
            | Ok (st', act) -> e := Some st';
-               Printf.sprintf "E n=%d cap=%d [%s] cb=%s" (List.length act) (int_of_nat st'.e_cap) (act_string full) (cb_string runs full)
+               Printf.sprintf "E n=%d cap=%d [%s] cb=%s" (List.length act) (int_of_nat st'.e_cap) (act_string full) (cb_string (runs 0) full)
            | Rejected -> "E rejected"
            | Fault -> e := None; "E FAULT")) in
         let ps = (match !p with None -> "P dead [] cb=" | Some st ->
           (match pp_step_current st (Poll (ready, [])) with
            | Ok (st', act) -> p := Some st';
-               Printf.sprintf "P n=%d [%s] cb=%s" (List.length act) (act_string act) (cb_string runs act)
+               Printf.sprintf "P n=%d [%s] cb=%s" (List.length act) (act_string act) (cb_string (runs 1) act)
            | Rejected -> "P rejected"
            | Fault -> p := None; "P FAULT")) in
         Printf.printf "poll env=%s %s | %s\n" env es ps; flush stdout
     | [k; a] | [k; a; _] as w ->
         let c = int_of_string a in
-        let o = (match k, w with
-          | "NEW", [_; _; f] -> hif := max !hif (int_of_string f + 1);
-              if c >= 0 && c < maxch then begin
-                (* a fresh Channel object is untied (only when the NEW is going to be accepted) *)
-                let fresh = (match !e, !p with
-                  | Some st, _ -> st.e_objs (nat_of_int c) = None
-                  | None, Some st -> st.p_objs (nat_of_int c) = None
-                  | None, None -> false) in
-                if fresh then (tied.(c) <- false; owner.(c) <- false) end;
-              Some (New (nat_of_int c, nat_of_int (int_of_string f)))
-          | "DEL", _ -> Some (Del (nat_of_int c))
-          | "ER", _ -> Some (Upd (UEnableR, nat_of_int c))
-          | "DR", _ -> Some (Upd (UDisableR, nat_of_int c))
-          | "EW", _ -> Some (Upd (UEnableW, nat_of_int c))
-          | "DW", _ -> Some (Upd (UDisableW, nat_of_int c))
-          | "DA", _ -> Some (Upd (UDisableAll, nat_of_int c))
-          | "RM", _ -> Some (Remove (nat_of_int c))
-          | _ -> None) in
-        (match o with
+        let arg = (match w with [_; _; f] -> int_of_string f | _ -> 0) in
+        (match (if c < 0 || c >= maxch then None else op_of k c arg) with
          | None -> print_string "invalid unknown op\n"; bad := true
          | Some o ->
-           if c < 0 || c >= maxch then (print_string "invalid\n"; bad := true) else begin
-           hic := max !hic (c + 1);
+           note_op o; hic := max !hic (c + 1);
            (* the two sides are independent; a precondition violation rejects on both *)
            let re = (match !e with None -> `Dead | Some st -> (match ep_step_current st o with
                | Ok (st', _) -> `Ok (Some st') | Rejected -> `Rej | Fault -> `Fault)) in
@@ -195,18 +226,16 @@ let () =
              | `Rej, (`Rej | `Dead) | `Dead, `Rej -> "rejected"
              | `Fault, _ -> e := None; (match rp with `Ok st' -> p := Some st' | `Fault -> p := None | _ -> ()); "FAULT-E"
              | _, `Fault -> p := None; (match re with `Ok st' -> e := st' | _ -> ()); "FAULT-P"
+             | `Rej, `Ok _ | `Ok _, `Rej -> "MIXED"
              | _, _ ->
                (match re with `Ok st' -> e := st' | _ -> ());
                (match rp with `Ok st' -> p := Some st' | _ -> ());
-               (match re, rp with
-                | `Rej, `Ok _ | `Ok _, `Rej -> "MIXED"
-                | _ -> "ok")) in
-           (if status = "ok" then (match o with New _ -> incr alive | Del _ -> decr alive | _ -> ()));
+               "ok") in
+           sync_ties ();
            if status = "MIXED" then (print_string "MIXED\n"; bad := true)
            else if String.length status >= 5 && String.sub status 0 5 = "FAULT" then Printf.printf "%s\n" status
-           else if !alive > 16 then Printf.printf "%s big\n" status
-           else Printf.printf "%s %s\n" status (state_string !e !p !hic !hif)
-           end);
+           else if alive_count !e !p !hic > 16 then Printf.printf "%s big\n" status
+           else Printf.printf "%s %s\n" status (state_string !e !p !hic !hif));
         flush stdout
     | _ -> print_string "invalid unknown op\n"; bad := true; flush stdout
   done with End_of_file -> ())
